@@ -142,14 +142,27 @@ theorem mapM_flatten_rows {α : Type} (f : α → Except Err (List Chunk)) (g : 
     rw [List.flatten_cons, rowsOf_append, hf a c hc, mapM_flatten_rows f g hf l rest hr]
     simp
 
+theorem mapM_congr' {α β : Type} {f g : α → Except Err β} : ∀ (l : List α), (∀ a ∈ l, f a = g a) → l.mapM f = l.mapM g
+  | [], _ => rfl
+  | a :: l, h => by
+    rw [List.mapM_cons, List.mapM_cons, h a (by simp), mapM_congr' l (fun x hx => h x (by simp [hx]))]
+
+/-- "every listed subrun is taken whole" (`"all"`) -/
+def AllSel (sel : Sel) (spec : List String) : Prop := ∀ r ∈ spec, sel.lookup r = none
+
 /-- the concat loader yields the subruns' rows one subrun after the other, in `sub_run_spec` order -/
-theorem concatLoader_rows {w : World} {spec : List String} {j : Nat} {cs : List Chunk}
-    (h : concatLoader w spec j = .ok cs) : rowsOf cs = spec.flatMap (srcRows w) := by
+theorem concatLoader_rows {w : World} {spec : List String} {sel : Sel} {j : Nat} {cs : List Chunk}
+    (hsel : AllSel sel spec) (h : concatLoader w spec sel j = .ok cs) : rowsOf cs = spec.flatMap (srcRows w) := by
   unfold concatLoader at h
   obtain ⟨per, hp, h⟩ := bind_ok h
   simp only [pure, Except.pure, Except.ok.injEq] at h
   subst h
-  exact mapM_flatten_rows _ _ (fun a cs hc => subrunStored_rows hc) spec per hp
+  have hp' : spec.mapM (fun rid => subrunStored w rid j) = .ok per := by
+    rw [← hp]
+    apply mapM_congr'
+    intro r hr
+    simp [subrunLoaded, hsel r hr]
+  exact mapM_flatten_rows _ _ (fun a cs hc => subrunStored_rows hc) spec per hp'
 
 /-! ## 8. the storage invariant and `superGet` -/
 
@@ -157,31 +170,33 @@ theorem concatLoader_rows {w : World} {spec : List String} {j : Nat} {cs : List 
 stored under it are that definition's rows.  The key only depends on the SET of subruns (`hashablize` sorts the
 dict), so `spec` ranges over a class `Canon` of orderings in which the set determines the order (e.g. "sorted by a
 fixed strict order of run starts", or "sorted by id"). -/
-def Good {κ : Type} (Canon : List String → Prop) (H : List String → Bool → κ) (w : World) (key : Key κ)
-    (rows : List Row) : Prop :=
-  ∀ (spec : List String) (c : Bool), Canon spec → key = superrunKey H w.superName spec c →
+def Good {κ : Type} (Canon : List String → Prop) (H : List (String × Option (Int × Int)) → Bool → κ) (w : World)
+    (key : Key κ) (rows : List Row) : Prop :=
+  ∀ (spec : List String) (c : Bool), Canon spec → key = superrunKey H w.superName spec [] c →
     rows = spec.flatMap (srcRows w)
 
-def StoreInv {κ : Type} [DecidableEq κ] (Canon : List String → Prop) (H : List String → Bool → κ) (w : World)
+def StoreInv {κ : Type} [DecidableEq κ] (Canon : List String → Prop) (H : List (String × Option (Int × Int)) → Bool → κ) (w : World)
     (st : Store κ) : Prop :=
   ∀ key dt cs, st.lookup (key, dt) = some cs → Good Canon H w key (rowsOf cs)
 
-theorem storeInv_nil {κ : Type} [DecidableEq κ] (Canon : List String → Prop) (H : List String → Bool → κ) (w : World) :
+theorem storeInv_nil {κ : Type} [DecidableEq κ] (Canon : List String → Prop) (H : List (String × Option (Int × Int)) → Bool → κ)
+    (w : World) :
     StoreInv Canon H w [] := by
   intro key dt cs h; simp at h
 
 theorem perm_of_sortIds_eq' {a b : List String} (h : sortIds a = sortIds b) : a.Perm b :=
   (sortIds_perm a).symm.trans (h ▸ sortIds_perm b)
 
-theorem good_of_own {κ : Type} {Canon : List String → Prop} {H : List String → Bool → κ}
+/-- a key of a definition with selections coincides with the key of an all-`"all"` definition only if it IS that
+definition: same runs (hence same order, in a canonical class) and every listed run taken whole -/
+theorem own_key_all {κ : Type} {Canon : List String → Prop} {H : List (String × Option (Int × Int)) → Bool → κ}
     (hH : ∀ a b c d, H a b = H c d → a = c ∧ b = d) (hcanon : ∀ a b, Canon a → Canon b → a.Perm b → a = b)
-    {w : World} {spec : List String} {comb : Bool} (hs : Canon spec) {rows : List Row}
-    (hr : rows = spec.flatMap (srcRows w)) : Good Canon H w (superrunKey H w.superName spec comb) rows := by
-  intro spec' c' hs' hk
-  have := hcanon spec spec' hs hs' (perm_of_sortIds_eq' (superrunKey_inj hH hk).1)
-  rw [← this]; exact hr
+    {name : String} {spec spec' : List String} {sel : Sel} {c c' : Bool} (hs : Canon spec) (hs' : Canon spec')
+    (hk : superrunKey H name spec sel c = superrunKey H name spec' [] c') : spec = spec' ∧ AllSel sel spec := by
+  obtain ⟨h1, h2⟩ := tagged_eq (superrunKey_inj hH hk).1
+  exact ⟨hcanon spec spec' hs hs' (perm_of_sortIds_eq' h1), fun r hr => by simpa using h2 r hr⟩
 
-theorem storeInv_cons {κ : Type} [DecidableEq κ] {Canon : List String → Prop} {H : List String → Bool → κ} {w : World}
+theorem storeInv_cons {κ : Type} [DecidableEq κ] {Canon : List String → Prop} {H : List (String × Option (Int × Int)) → Bool → κ} {w : World}
     {st : Store κ} {key : Key κ} {dt : String} {cs : List Chunk}
     (hi : StoreInv Canon H w st) (hg : Good Canon H w key (rowsOf cs)) : StoreInv Canon H w (((key, dt), cs) :: st) := by
   intro key' dt' cs' h
@@ -193,11 +208,11 @@ theorem storeInv_cons {κ : Type} [DecidableEq κ] {Canon : List String → Prop
     rw [he.1]; exact hg
   · exact hi key' dt' cs' h
 
-theorem descend_rows {κ : Type} [DecidableEq κ] {Canon : List String → Prop} {H : List String → Bool → κ} {w : World}
-    {spec : List String} {comb : Bool} {store : Store κ}
-    (hs : Canon spec) (hi : StoreInv Canon H w store) :
+theorem descend_rows {κ : Type} [DecidableEq κ] {Canon : List String → Prop} {H : List (String × Option (Int × Int)) → Bool → κ}
+    {w : World} {spec : List String} {sel : Sel} {comb : Bool} {store : Store κ}
+    (hs : Canon spec) (hsel : AllSel sel spec) (hi : StoreInv Canon H w store) :
     ∀ (rev : List Level) (base : List Chunk) (above : List Level),
-      descend w spec (superrunKey H w.superName spec comb) store comb rev = .ok (base, above) →
+      descend w spec sel (superrunKey H w.superName spec sel comb) store comb rev = .ok (base, above) →
       rowsOf base = spec.flatMap (srcRows w)
   | [], base, above, h => by cases h
   | lv :: below, base, above, h => by
@@ -208,16 +223,18 @@ theorem descend_rows {κ : Type} [DecidableEq κ] {Canon : List String → Prop}
       simp only [pure, Except.pure, Except.ok.injEq, Prod.mk.injEq] at h
       obtain ⟨rfl, _⟩ := h
       rw [mapM_reload_rows hc]
-      exact hi _ _ _ hl spec comb hs rfl
+      refine hi _ _ _ hl spec comb hs ?_
+      unfold superrunKey
+      rw [tagged_congr (l1 := sel) (l2 := []) (fun r hr => by simpa using hsel r hr)]
     · split at h
       · obtain ⟨cs', hc, h⟩ := bind_ok h
         simp only [pure, Except.pure, Except.ok.injEq, Prod.mk.injEq] at h
         obtain ⟨rfl, _⟩ := h
-        exact concatLoader_rows hc
+        exact concatLoader_rows hsel hc
       · obtain ⟨⟨b, ab⟩, hd, h⟩ := bind_ok h
         simp only [pure, Except.pure, Except.ok.injEq, Prod.mk.injEq] at h
         obtain ⟨rfl, _⟩ := h
-        exact descend_rows hs hi below b ab hd
+        exact descend_rows hs hsel hi below b ab hd
 
 theorem runLevels_rows (rid : String) : ∀ (ls : List Level) (cs : List Chunk) (outs : List (Level × List Chunk)),
     runLevels rid ls cs = .ok outs → ∀ p ∈ outs, rowsOf p.2 = rowsOf cs
@@ -234,7 +251,7 @@ theorem runLevels_rows (rid : String) : ∀ (ls : List Level) (cs : List Chunk) 
     · exact pluginRun_rows ho
     · rw [runLevels_rows rid ls out more hm p hp, pluginRun_rows ho]
 
-theorem saveAll_inv {κ : Type} [DecidableEq κ] {Canon : List String → Prop} {H : List String → Bool → κ} {w : World}
+theorem saveAll_inv {κ : Type} [DecidableEq κ] {Canon : List String → Prop} {H : List (String × Option (Int × Int)) → Bool → κ} {w : World}
     {key : Key κ} {rows : List Row}
     (hg : Good Canon H w key rows) (a : Int) (rid : String) :
     ∀ (outs : List (Level × List Chunk)) (st st' : Store κ), (∀ p ∈ outs, rowsOf p.2 = rows) → StoreInv Canon H w st →
@@ -249,15 +266,16 @@ theorem saveAll_inv {κ : Type} [DecidableEq κ] {Canon : List String → Prop} 
     rw [save_rows hs, hr (lv, out) (by simp)]
     exact hg
 
-/-- **Rows of a superrun, and no stale data.**  For every world, every id-sorted `spec`, every store satisfying
-the invariant, every target level, combining or not, writing or not: if `get_iter` succeeds, the yielded rows are
-the subruns' rows concatenated in `spec` order, and the store still satisfies the invariant. -/
-theorem superGet_rows {κ : Type} [DecidableEq κ] {Canon : List String → Prop} {H : List String → Bool → κ}
+/-- **Rows of a superrun, and no stale data.**  For every world, every `spec` of a canonical class with any
+per-subrun selections, every store satisfying the invariant, every target level, combining or not, writing or not:
+if `get_iter` succeeds, the store still satisfies the invariant, and — when every listed subrun is taken whole —
+the yielded rows are the subruns' rows concatenated in `spec` order. -/
+theorem superGet_rows {κ : Type} [DecidableEq κ] {Canon : List String → Prop} {H : List (String × Option (Int × Int)) → Bool → κ}
     (hH : ∀ a b c d, H a b = H c d → a = c ∧ b = d) (hcanon : ∀ a b, Canon a → Canon b → a.Perm b → a = b)
-    {w : World} {spec : List String} {store store' : Store κ} {n : Nat} {comb write : Bool} {y : List Chunk}
+    {w : World} {spec : List String} {sel : Sel} {store store' : Store κ} {n : Nat} {comb write : Bool} {y : List Chunk}
     (hs : Canon spec) (hi : StoreInv Canon H w store)
-    (h : superGet H w spec store n comb write = .ok (y, store')) :
-    rowsOf y = spec.flatMap (srcRows w) ∧ StoreInv Canon H w store' := by
+    (h : superGet H w spec sel store n comb write = .ok (y, store')) :
+    StoreInv Canon H w store' ∧ (AllSel sel spec → rowsOf y = spec.flatMap (srcRows w)) := by
   unfold superGet at h
   split at h
   · cases h
@@ -269,19 +287,21 @@ theorem superGet_rows {κ : Type} [DecidableEq κ] {Canon : List String → Prop
       obtain ⟨st2, hsv, h⟩ := bind_ok h
       simp only [pure, Except.pure, Except.ok.injEq, Prod.mk.injEq] at h
       obtain ⟨rfl, rfl⟩ := h
-      have hb := descend_rows hs hi _ base above hd
+      have hb : AllSel sel spec → rowsOf base = spec.flatMap (srcRows w) :=
+        fun hsel => descend_rows hs hsel hi _ base above hd
       have hall := runLevels_rows w.superName above base outs ho
-      have hy : rowsOf (topOutput outs base) = spec.flatMap (srcRows w) := by
+      have hy : rowsOf (topOutput outs base) = rowsOf base := by
         unfold topOutput
         cases hl : outs.getLast? with
-        | none => simpa using hb
-        | some p =>
-          have hm : p ∈ outs := List.mem_of_getLast? hl
-          rw [← hb, ← hall p hm]
-      refine ⟨hy, ?_⟩
+        | none => rfl
+        | some p => exact hall p (List.mem_of_getLast? hl)
+      refine ⟨?_, fun hsel => by rw [hy, hb hsel]⟩
       unfold storeAfter at hsv
       split at hsv
-      · exact saveAll_inv (good_of_own hH hcanon hs rfl) _ _ outs store _ (fun p hp => by rw [hall p hp, hb]) hi hsv
+      · refine saveAll_inv (rows := rowsOf base) ?_ _ _ outs store _ hall hi hsv
+        intro spec' c' hs' hk
+        obtain ⟨rfl, hsel⟩ := own_key_all hH hcanon hs hs' hk
+        exact hb hsel
       · simp only [pure, Except.pure, Except.ok.injEq] at hsv; subst hsv; exact hi
 
 /-! ## 9. id order, keys of permuted specs, histories of gets -/
@@ -350,29 +370,31 @@ theorem defineRun_startSorted {docs : List (String × Int)} {data spec : List St
 /-- one `get_iter` call of a history: under which definition, for which level, how -/
 structure GetOp where
   spec : List String
+  sel : Sel
   n : Nat
   combining : Bool
   write : Bool
 
 /-- a history of `get_iter` calls on one context (storage persists, the superrun may be redefined between any two
 calls); it ends at the first call that raises -/
-def runOps {κ : Type} [DecidableEq κ] (H : List String → Bool → κ) (w : World) : Store κ → List GetOp → List (GetOp × List Chunk)
+def runOps {κ : Type} [DecidableEq κ] (H : List (String × Option (Int × Int)) → Bool → κ) (w : World) :
+    Store κ → List GetOp → List (GetOp × List Chunk)
   | _, [] => []
   | st, op :: ops =>
-    match superGet H w op.spec st op.n op.combining op.write with
+    match superGet H w op.spec op.sel st op.n op.combining op.write with
     | .ok (y, st') => (op, y) :: runOps H w st' ops
     | .error _ => []
 
-theorem runOps_rows {κ : Type} [DecidableEq κ] {Canon : List String → Prop} {H : List String → Bool → κ}
+theorem runOps_rows {κ : Type} [DecidableEq κ] {Canon : List String → Prop} {H : List (String × Option (Int × Int)) → Bool → κ}
     (hH : ∀ a b c d, H a b = H c d → a = c ∧ b = d) (hcanon : ∀ a b, Canon a → Canon b → a.Perm b → a = b) (w : World) :
     ∀ (ops : List GetOp) (st : Store κ), StoreInv Canon H w st → (∀ op ∈ ops, Canon op.spec) →
-      ∀ p ∈ runOps H w st ops, rowsOf p.2 = p.1.spec.flatMap (srcRows w)
+      ∀ p ∈ runOps H w st ops, AllSel p.1.sel p.1.spec → rowsOf p.2 = p.1.spec.flatMap (srcRows w)
   | [], _, _, _, p, hp => by simp [runOps] at hp
   | op :: ops, st, hi, hs, p, hp => by
     unfold runOps at hp
     split at hp
     · rename_i y st' hg
-      obtain ⟨hy, hi'⟩ := superGet_rows hH hcanon (hs op (by simp)) hi hg
+      obtain ⟨hi', hy⟩ := superGet_rows hH hcanon (hs op (by simp)) hi hg
       simp only [List.mem_cons] at hp
       rcases hp with rfl | hp
       · exact hy
